@@ -131,6 +131,36 @@ def run (α : Type) [Scalar α] [Codec α] (op : String) (c : Ctx) : Option (Rd 
       let (_, answers) := w.run steps.toList
       pure (" ".intercalate (answers.map fun a =>
         " ".intercalate (s!"i{a.length}" :: a.map outShape)))
+  | "c18.iters" => some do
+      -- in: families (records each), steps (0 start fam | 1 next it | 2 get fam name | 3 len fam) ;
+      -- out: per step: start -> i0 it ; next -> i1 name shape | i9 (StopIteration) ; get -> i2 shape ;
+      --      len -> i3 n ; none -> i8
+      let nf ← Rd.nat c
+      let mut fams : Array (Family Nat) := #[]
+      for k in [0:nf] do
+        let f ← rdFamily c
+        fams := fams.push ⟨f.data.map fun kv => (kv.1, { kv.2 with verts := 100000 * k + kv.2.verts })⟩
+      let ns ← Rd.nat c
+      let mut steps : Array IStep := #[]
+      for _ in [0:ns] do
+        let kind ← Rd.nat c
+        let a ← Rd.nat c
+        if kind = 0 then steps := steps.push (.start a)
+        else if kind = 1 then steps := steps.push (.next a)
+        else if kind = 2 then
+          let name ← rdStr c
+          steps := steps.push (.get a name)
+        else steps := steps.push (.len a)
+      let s0 : IState Nat := ⟨⟨fams.toList⟩, []⟩
+      let (_, answers) := s0.run steps.toList
+      pure (" ".intercalate (answers.map fun a =>
+        match a with
+        | .started it => s!"i0 i{it}"
+        | .item key shape => s!"i1 {outStr key} {outShape shape}"
+        | .stop => "i9"
+        | .shape sh => s!"i2 {outShape sh}"
+        | .count n => s!"i3 i{n}"
+        | .none => "i8"))
   | "c18.family" => some do
       -- in: records, query ; out: names-iteration (class, payload)*, then get_shape(query)
       let f ← rdFamily c
